@@ -37,3 +37,18 @@ class Worker:
             self.p.wait(timeout=10)
         except Exception:
             self.p.kill()
+
+
+class Oracle(Worker):
+    """persistent oracle_server.py inside a reference interpreter"""
+
+    def __init__(self, version):
+        self.version = version
+        self.python = core.ORACLES[version]
+        env = dict(os.environ)
+        env.pop("PYTHONPATH", None)
+        env["PYTHONHASHSEED"] = "0"
+        env["PYTHONDONTWRITEBYTECODE"] = "1"
+        self.p = subprocess.Popen([self.python, os.path.join(core.HARNESS, "oracle_server.py")],
+                                  stdin=subprocess.PIPE, stdout=subprocess.PIPE, stderr=subprocess.PIPE,
+                                  universal_newlines=True, env=env, cwd="/")
